@@ -1,6 +1,9 @@
 import Pyc.Driver.Util
+import Pyc.Driver.Value
 import Pyc.Model.Codec
+import Pyc.Model.CustomCodec
 import Pyc.Proofs.Typed
+import Pyc.Proofs.CustomCodec
 import Pyc.Generated.Schema
 
 namespace Pyc.Driver
@@ -70,6 +73,95 @@ def handleCodec (op : String) (j : Json) : R Json := do
     match decodeAll b with
     | none => pure (Json.mkObj [("err", "cbor")])
     | some i => pure (ofBytes (encode i))
+  | _ => throw s!"unknown op {op}"
+
+/-! ## hand-written codecs (`Model/CustomCodec.lean`): ops `custom.*`
+
+JSON: a value is `{"coin": "<int>", "ma": [[policy hex, [[name hex, "<int>"], …]], …]}` (as in `Driver/Value.lean`);
+an output is `{"addr": hex, "amount": value, "dh": hex | null, "datum": hex | null, "script": null | {"native": hex} |
+{"plutus": [version, hex]}, "pa": bool}` where `addr`, `datum` and a native script are the CBOR bytes of the
+primitive the implementation wrote for that leaf (`Leaf.raw`). -/
+
+open Pyc.Custom
+
+def rawLeaves : Leaves Item Item Item := ⟨Leaf.raw, Leaf.raw, Leaf.raw⟩
+
+def jCItemHex (j : Json) : R Item := do
+  let b ← jBytes j
+  match decodeAll b with
+  | some i => pure i
+  | none => throw "not a single well-formed CBOR item"
+
+def jCScript (j : Json) : R (Script Item) := do
+  if let some v := getOpt j "native" then return .native (← jCItemHex v)
+  if let some v := getOpt j "plutus" then
+    let p ← jPair jNat jBytes v
+    return .plutus p.1 p.2
+  throw "bad script"
+
+def jCOutput (j : Json) : R (Output Item Item Item) := do
+  let addr ← jCItemHex (← j.getObjVal? "addr")
+  let amount ← jValue (← j.getObjVal? "amount")
+  let dh ← match getOpt j "dh" with
+    | some v => do pure (some (← jBytes v))
+    | none => pure Option.none
+  let datum ← match getOpt j "datum" with
+    | some v => do pure (some (← jCItemHex v))
+    | none => pure Option.none
+  let script ← match getOpt j "script" with
+    | some v => do pure (some (← jCScript v))
+    | none => pure Option.none
+  pure ⟨addr, amount, dh, datum, script, ← getBool j "pa"⟩
+
+def ofCScript : Script Item → Json
+  | .native i => Json.mkObj [("native", ofBytes (encode i))]
+  | .plutus v b => Json.mkObj [("plutus", Json.arr #[ofNat v, ofBytes b])]
+
+def ofCOpt {α : Type} (f : α → Json) : Option α → Json
+  | some a => f a
+  | none => Json.null
+
+def ofCOutput (o : Output Item Item Item) : Json :=
+  Json.mkObj [("addr", ofBytes (encode o.address)), ("amount", ofValue o.amount), ("dh", ofCOpt ofBytes o.datumHash),
+    ("datum", ofCOpt (fun i => ofBytes (encode i)) o.datum), ("script", ofCOpt ofCScript o.script), ("pa", Json.bool o.postAlonzo)]
+
+def cErrJson (e : String) : Json := Json.mkObj [("err", Json.str e)]
+
+def handleCustom (op : String) (j : Json) : R Json := do
+  match op with
+  | "custom.value.enc" =>
+    let v ← jValue (← j.getObjVal? "a")
+    pure (Json.mkObj [("hex", ofBytes (encValueBytes v)), ("inscope", Json.bool (valueOkB v)),
+      ("norm", ofValue (normValue v)), ("eq_orig", Json.bool (Value.eq (normValue v) v))])
+  | "custom.value.dec" =>
+    match decValueBytes (← getBytes j "hex") with
+    | .ok v => pure (Json.mkObj [("val", ofValue v), ("reenc", ofBytes (encValueBytes v))])
+    | .deser => pure (cErrJson "deser")
+    | .crash => pure (cErrJson "crash")
+  | "custom.output.enc" =>
+    let o ← jCOutput (← j.getObjVal? "o")
+    if outputValid o then
+      -- `inscope`: the executable part of `OutputOk` (well-formed amount, 32-byte datum hash, Plutus version 1-3); the
+      -- CBOR-representability of the embedded leaf primitives holds for anything that crossed the pipe as CBOR bytes
+      let inscope := valueOkB o.amount && (match o.datumHash with | some h => h.length == 32 | none => true) &&
+        (match o.script with | some (.plutus v _) => v == 1 || v == 2 || v == 3 | _ => true)
+      pure (Json.mkObj [("hex", ofBytes (encOutputBytes rawLeaves o)), ("form", Json.str (if mapForm o then "map" else "legacy")),
+        ("decoded", ofCOutput (decodedOutput o)), ("inscope", Json.bool inscope)])
+    else pure (cErrJson "invalid")
+  | "custom.output.dec" =>
+    match decOutputBytes rawLeaves (← getBytes j "hex") with
+    | .ok o => pure (Json.mkObj [("o", ofCOutput o), ("reenc", ofBytes (encOutputBytes rawLeaves o))])
+    | .deser => pure (cErrJson "deser")
+    | .crash => pure (cErrJson "crash")
+  | "custom.body.postinit" =>
+    -- the normal form of a dataclass value under decode ∘ encode (this tree has no `TransactionBody.__post_init__`:
+    -- the constructor stores what it is given, the normalisation happens in the decoder)
+    let v ← cdVal (← j.getObjVal? "v")
+    let nv := bodyNorm Pyc.Generated.repoSchema v
+    let cls ← getStr j "cls"
+    pure (Json.mkObj [("norm", cdOfVal nv), ("typed", Json.bool (typedB Pyc.Generated.repoSchema 200 (.cls cls) nv)),
+      ("enc", ofBytes (encodeVal Pyc.Generated.repoSchema v)),
+      ("dec", cdRes (fromPrim Pyc.Generated.repoSchema 200 (.cls cls) (toPrim Pyc.Generated.repoSchema v)))])
   | _ => throw s!"unknown op {op}"
 
 end Pyc.Driver
